@@ -83,7 +83,11 @@ func scRegisterRecFac(s Scope, name string, fac RecordFactory) {
 
 func scLookupRecFacCur(s Scope, fieldNames []string) frt.Tuple2[RecordFactory, bool] {
 	sdic := SCSDict(s)
-	return frt.Pipe(dict.Values(sdic.RecFacMap), (func(_r0 []RecordFactory) frt.Tuple2[RecordFactory, bool] {
+	return frt.Pipe(frt.Pipe(dict.Values(sdic.RecFacMap), (func(_r0 []RecordFactory) []RecordFactory {
+		return slice.SortBy(func(_v1 RecordFactory) string {
+			return _v1.Name
+		}, _r0)
+	})), (func(_r0 []RecordFactory) frt.Tuple2[RecordFactory, bool] {
 		return slice.TryFind((func(_r0 RecordFactory) bool { return recFacMatch(fieldNames, _r0) }), _r0)
 	}))
 }
